@@ -20,3 +20,6 @@ open Femio.C04
 #print axioms C04_second_write_same_file
 #print axioms C04_file_of_public_state_only
 #print axioms C04_stale_frame_counterexample
+#print axioms C04_align_by_key
+#print axioms C04_align_any_sign
+#print axioms C04_dense_table_counterexample
